@@ -19,7 +19,7 @@ RULE = ("one run = one generated deterministic graph (zero-cost edges, self-loop
 REAL = ["msdm.algorithms.search (AStarSearch, BreadthFirstSearch, unmodified)", "msdm.core.mdp.deterministic_shortest_path.from_mdp",
         "QuickTabularMDP and the four single-outcome distribution representations"]
 STUB = ["graph spec behind msdm's model interface", "random.Random streams (SimRandom)", "Dijkstra / BFS / cost-to-go reference"]
-ASSUMPTIONS = ["graphs of 1-8 states with integer costs 0..3, (20% of runs) 15-60 states, 4-6 actions, costs 0..9, and (0.3% of runs) corridors of 1050-1400 states", "tie-break floats are pairwise distinct (a real generator repeats one with probability ~2^-53)"]
+ASSUMPTIONS = ["graphs of 1-8 states with integer costs 0..3 (returned as ints by half of the models; 3% with 2**53 added to the edges out of the source), (20% of runs) 15-60 states, 4-6 actions, costs 0..9, and (0.3% of runs) corridors of 1050-1400 states", "tie-break floats are pairwise distinct (a real generator repeats one with probability ~2^-53)"]
 
 REPS = ('next_state', 'det', 'dict', 'uniform', 'dsp')
 HEUR = ('zero', 'exact', 'half', 'exact_inf')
@@ -35,6 +35,8 @@ def gen_case(rng, tier, idx):
     tb = rng.choice(('lifo', 'fifo', 'random', 'random'))
     rao = rng.random() < 0.6
     cfg = dict(rep=rng.choice(REPS), heur=rng.choice(HEUR), tie=tb, rao=rao, seed=rng.choice((0, 1, 42, None)))
+    if spec.get('giant'):
+        cfg['heur'] = 'zero'        # integer costs beyond 2**53: only integer arithmetic is exact, so no float-valued heuristic
     plain = idx % 4 == 0
     sched = gen_sched(rng, ('P',) if plain else ('U', 'X', 'X'), float_styles=('uniform', 'increasing', 'decreasing'),
                       budget_choices=(None,), coop=False)
@@ -46,7 +48,7 @@ def execute(case, script=None):
     gv = GraphView(case['spec'])
     ctx = RunCtx(PROP, None)
     ctx.declare_probes('no_plan', 'start_is_goal', 'zero_cost_edge_on_path', 'two_goals_reachable', 'infinite_heuristic_seen',
-                       'self_loop_present', 'random_tie_break', 'shuffled_actions', 'big_graph', 'path_longer_than_1000_steps')
+                       'self_loop_present', 'random_tie_break', 'shuffled_actions', 'big_graph', 'path_longer_than_1000_steps', 'integer_rewards', 'costs_beyond_2_53')
     sched = make_scheduler(case, script, ctx)
     try:
         return _execute(se, gv, case['cfg'], ctx, sched)
@@ -90,6 +92,10 @@ def _execute(se, gv, cfg, ctx, sched):
         ctx.probe('shuffled_actions')
     if gv.n >= 10:
         ctx.probe('big_graph')
+    if gv.spec.get('intcost'):
+        ctx.probe('integer_rewards')
+    if gv.spec.get('giant') and best is not None and best >= 2 ** 53:
+        ctx.probe('costs_beyond_2_53')
     seed = cfg['seed'] if (cfg['tie'] == 'random' or cfg['rao']) else None
     proxy = RandomProxy(sched)
     for alg in ('astar', 'bfs'):
